@@ -74,6 +74,20 @@ def binf(op, a, b):
     raise ValueError(op)
 
 
+def binval(op, a, b):
+    """value only (the replica means may leave the domain of the derivative formulas)"""
+    if op == 'add':
+        return a + b
+    if op == 'sub':
+        return a - b
+    if op == 'mul':
+        return a * b
+    if op == 'div':
+        return a / b
+    r = a ** b
+    return float('nan') if isinstance(r, complex) else r
+
+
 def bin_dom_ok(op, a, b):
     if op == 'div':
         return abs(b) > 0.2
@@ -162,13 +176,13 @@ def oracle_eval(tree, leaves):
     op = tree['bin']
     if isinstance(a, Q) and isinstance(b, Q):
         _, ga, gb = binf(op, a.value, b.value)
-        return combine(lambda v: binf(op, v[0], v[1])[0], [ga, gb], [a, b])
+        return combine(lambda v: binval(op, v[0], v[1]), [ga, gb], [a, b])
     if isinstance(a, Q):
         _, ga, _ = binf(op, a.value, b)
-        return combine(lambda v: binf(op, v[0], b)[0], [ga], [a])
+        return combine(lambda v: binval(op, v[0], b), [ga], [a])
     if isinstance(b, Q):
         _, _, gb = binf(op, a, b.value)
-        return combine(lambda v: binf(op, a, v[0])[0], [gb], [b])
+        return combine(lambda v: binval(op, a, v[0]), [gb], [b])
     return binf(op, a, b)[0]
 
 
